@@ -869,6 +869,7 @@ type tcall struct {
 	targetLV  string
 	value     string
 	pre       []string // extfld: places assigned before the declared results
+	post      []string // places assigned AFTER the declared results (in-out parameters of a translated callee)
 	traceStmt string   // extstmt with a trace: executed before the call
 	pureTrace bool     // the call touches nothing Go code can read (only the trace and its own results)
 	recvRd    string   // addret / cas: the receiver as an expression
@@ -994,6 +995,15 @@ func (x *xl) callExpr(c *ast.CallExpr) (tx, bool) {
 			case "extstmt":
 				pendingCall = &tcall{ctor: "callX", f: sh.f, args: args, res: sh.res}
 				return tx{}, true
+			case "mutarg:0", "mutarg:1", "mutarg:2": // statement  args[N], lhs… = f(fnValue, args…)
+				idx, _ := strconv.Atoi(sh.kind[7:])
+				if idx >= len(c.Args) {
+					x.fail(c, "shim %s on a function value with %d arguments", sh.kind, len(c.Args))
+				}
+				lv, _ := x.lvalue(c.Args[idx])
+				all := append([]string{"(.loc " + leanStr(v.lean) + ")"}, args...)
+				pendingCall = &tcall{ctor: "callX", f: sh.f, args: all, res: sh.res, pre: []string{lv}}
+				return tx{}, true
 			case "extfld": // statement  flds… = f(flds…, fnValue, args…): the function value is handed the object
 				var lvs, all []string
 				for _, fl := range sh.flds {
@@ -1065,6 +1075,13 @@ func (x *xl) callExpr(c *ast.CallExpr) (tx, bool) {
 			key, isSelf = "recv."+sel.Sel.Name, true
 		}
 	}
+	isOther := false
+	if id, ok := sel.X.(*ast.Ident); key == "" && ok && id.Name == x.otherVar && x.otherVar != "" {
+		if _, shadow := x.lookup(id.Name); !shadow {
+			// a method of the SECOND object: only translated functions (they run on the same flat field environment)
+			key, isOther = "other."+sel.Sel.Name, true
+		}
+	}
 	if key == "" {
 		if lv, rd, typ, ok := x.place(sel.X); ok {
 			key, recvLean, recvLV, hasRecv = typ+"."+sel.Sel.Name, rd, lv, true
@@ -1092,6 +1109,18 @@ func (x *xl) callExpr(c *ast.CallExpr) (tx, bool) {
 			args = append(args, x.defaulted(a, x.expr(a)).lean)
 		}
 	}
+	if strings.HasPrefix(sh.kind, "funarg:") {
+		// statement  args[N], lhs… = translated function f(args…) whose N-th parameter is declared in-out by ITS entry
+		// (a *buffer.Buffer the callee appends to): the callee returns the final value after its results
+		idx, err := strconv.Atoi(sh.kind[7:])
+		if err != nil || idx < 0 || idx >= len(c.Args) || !(isSelf || isOther || isPkgFn) {
+			x.fail(c, "shim %s on %s", sh.kind, key)
+		}
+		addArgs()
+		lv, _ := x.lvalue(c.Args[idx])
+		pendingCall = &tcall{ctor: "call", f: sh.f, args: args, res: sh.res, post: []string{lv}}
+		return tx{}, true
+	}
 	if strings.HasPrefix(sh.kind, "mutarg:") {
 		// statement  args[N], lhs… = f(args…): an external intrinsic that writes through its N-th argument (a slice the
 		// callee fills, e.g. runtime.Callers(skip, pcs)); the argument must be assignable
@@ -1099,6 +1128,7 @@ func (x *xl) callExpr(c *ast.CallExpr) (tx, bool) {
 		if err != nil || idx < 0 || idx >= len(c.Args) || hasRecv {
 			x.fail(c, "shim %s on %s", sh.kind, key)
 		}
+		args = append(args, x.withArgs(c, sh, key)...)
 		addArgs()
 		lv, _ := x.lvalue(c.Args[idx])
 		pendingCall = &tcall{ctor: "callX", f: sh.f, args: args, res: sh.res, pre: []string{lv}}
@@ -1232,7 +1262,7 @@ func (x *xl) callExpr(c *ast.CallExpr) (tx, bool) {
 		pendingCall = &tcall{ctor: "call", f: sh.f, args: args, res: sh.res}
 		return tx{}, true
 	case "fun":
-		if !isSelf && !isPkgFn {
+		if !isSelf && !isPkgFn && !isOther {
 			x.fail(c, "translated function %s must be called on the receiver itself", key)
 		}
 		addArgs()
@@ -1732,6 +1762,7 @@ func (x *xl) emitCall(n ast.Node, pc *tcall, lvs []string, ltyps []string) strin
 			}
 		}
 		lvs = append(append([]string{}, pc.pre...), lvs...)
+		lvs = append(lvs, pc.post...)
 		if pc.traceStmt != "" {
 			return block([]string{pc.traceStmt, "(." + pc.ctor + " [" + strings.Join(lvs, ", ") + "] " + leanStr(pc.f) + " [" + strings.Join(pc.args, ", ") + "])"})
 		}
@@ -1785,12 +1816,17 @@ func (x *xl) assign(t *ast.AssignStmt) string {
 	// it filled.  `v := recv.f()` with kind "primary": an intrinsic makes a new object from the receiver; from here on
 	// v is the PRIMARY object (fields through `fields`, method calls are self calls) and the receiver is the second one.
 	if len(t.Lhs) == 1 && len(t.Rhs) == 1 && t.Tok == token.DEFINE {
-		if c, isCall := t.Rhs[0].(*ast.CallExpr); isCall && len(c.Args) == 0 {
+		rhs := t.Rhs[0]
+		if ta, isTA := rhs.(*ast.TypeAssertExpr); isTA && ta.Type != nil {
+			rhs = ta.X // `f().(*T)`: the whitelist entry vouches for the dynamic type
+		}
+		if c, isCall := rhs.(*ast.CallExpr); isCall && len(c.Args) == 0 {
 			key := exprString(c.Fun)
-			if sel, ok := c.Fun.(*ast.SelectorExpr); ok {
-				if rid, ok := sel.X.(*ast.Ident); ok && rid.Name == x.recvVar && x.recvVar != "" {
-					key = "recv." + sel.Sel.Name
-				}
+			if id0 := rootIdent(c.Fun); id0 == x.recvVar && x.recvVar != "" {
+				key = "recv" + strings.TrimPrefix(key, x.recvVar)
+			}
+			if rhs != t.Rhs[0] {
+				key += ".(" + exprString(t.Rhs[0].(*ast.TypeAssertExpr).Type) + ")"
 			}
 			if sh, ok := x.fn.calls[key]; ok && (sh.kind == "object" || sh.kind == "objectfun" || sh.kind == "primary") {
 				id, isId := t.Lhs[0].(*ast.Ident)
@@ -2157,6 +2193,36 @@ func (x *xl) deferStmt(t *ast.DeferStmt) string {
 	if len(t.Call.Args) != 0 {
 		x.fail(t, "defer of a call with arguments is outside the subset")
 	}
+	// `defer func() { a(); b() }()`: a closure without parameters whose body is a list of call statements; they run (in
+	// source order) where a deferred call runs
+	if fl, ok := t.Call.Fun.(*ast.FuncLit); ok {
+		if fl.Type.Params != nil && len(fl.Type.Params.List) != 0 || fl.Type.Results != nil {
+			x.fail(t, "deferred closure with parameters or results")
+		}
+		var parts []string
+		for _, st := range fl.Body.List {
+			es, ok := st.(*ast.ExprStmt)
+			if !ok {
+				x.fail(st, "deferred closure: only call statements are in the subset")
+			}
+			ce, ok := es.X.(*ast.CallExpr)
+			if !ok {
+				x.fail(st, "deferred closure: only call statements are in the subset")
+			}
+			_, isStmt := x.callExpr(ce)
+			if !isStmt {
+				x.fail(st, "deferred closure: %s must be a statement-level intrinsic", exprString(ce.Fun))
+			}
+			pc := pendingCall
+			pendingCall = nil
+			if pc.ctor != "callX" {
+				x.fail(st, "deferred closure: %s must be an external intrinsic", exprString(ce.Fun))
+			}
+			parts = append(parts, x.emitCall(st, pc, nil, nil))
+		}
+		x.defers = append(x.defers, block(parts))
+		return ".skip"
+	}
 	_, isStmt := x.callExpr(t.Call)
 	if !isStmt {
 		x.fail(t, "deferred call %s must be a recorded intrinsic", exprString(t.Call.Fun))
@@ -2435,7 +2501,11 @@ func (x *xl) function() (lean string, err error) {
 		body = x.cutBody(fd)
 	}
 	if len(x.inouts) > 0 {
-		body = block([]string{body, "(.ret [" + x.inoutVals() + "])"})
+		end := []string{body}
+		for k := len(x.defers) - 1; k >= 0; k-- {
+			end = append(end, x.defers[k])
+		}
+		body = block(append(end, "(.ret ["+x.inoutVals()+"])"))
 	} else if len(x.defers) > 0 && len(x.results) == 0 {
 		end := []string{body}
 		for k := len(x.defers) - 1; k >= 0; k-- {
